@@ -10,6 +10,7 @@
 #include "Sprite/TilesetLoader.h"
 #include "Sprite/SpriteLoader.h"
 #include "Stream/FileWriter.h"
+#include <algorithm>
 #include <memory>
 #include <set>
 #include <functional>
@@ -284,8 +285,12 @@ void build(Ctx& ctx)
 {
 	buildSeeds(ctx.thorough);
 	gCases.clear();
+	// first in the list: each is picked up by a worker process that has not loaded anything yet, so state that survives
+	// between objects (function-local statics, caches) is still in its initial condition
+	gCases.push_back({ 2, 0, 0, 0 }); gCases.push_back({ 2, 1, 0, 0 });
 	for (std::size_t s = 0; s < gSeeds.size(); ++s) { std::size_t chunk = gSeeds[s].loader == 2 ? 60 : 250; for (std::size_t f = 0; f < gSpaces[s]->size() + 1; f += chunk) gCases.push_back({ 0, s, f, std::min(f + chunk, gSpaces[s]->size() + 1) }); }
 	for (std::size_t l = 0; l < 3; ++l) for (std::size_t f = 0; f < gConstructed[l].size(); f += 40) gCases.push_back({ 1, l, f, std::min(f + 40, gConstructed[l].size()) });
+
 }
 
 void preparePixelFiles(const std::string& dir)
@@ -309,6 +314,18 @@ void runCase(std::size_t i, Ctx& ctx)
 		if (c.seed == 5 && c.from == 0) ctx.sample("PRT seed (2 palettes, 3 images, 2 animations): every proper prefix and field x boundary value; accepted results are written and every sprite index 0..count+1 is extracted against 3 pixel files");
 		if (c.seed == 1 && c.from == 0) ctx.sample(gSpaces[1]->get(40).desc + " -> ReadIndexed; if accepted: Validate/WriteIndexed/WriteCustomTileset/InvertScanLines/SwapRedAndBlue/... in every reachable flip/swap state");
 	}
+	else if (c.kind == 2) {
+		// several loaded objects used in turn in one process: sprite sheets with 3, 1 and 0 images (either order), and bitmaps
+		// of different shapes; what one object allows must not leak into the checks of the next
+		std::vector<int> z(prtc::kDims, 0);
+		std::vector<mc::Mutant> sheets;
+		{ mc::Mutant m; m.bytes = gSeeds[5].fs.bytes; m.desc = "sprite sheet with 3 images (used in turn with others)"; sheets.push_back(m); }
+		{ mc::Mutant m; m.bytes = ref::encodePrt(prtc::makePrt(z)); m.desc = "sprite sheet with 1 image (used in turn with others)"; sheets.push_back(m); }
+		{ auto zz = z; zz[1] = 1; mc::Mutant m; m.bytes = ref::encodePrt(prtc::makePrt(zz)); m.desc = "sprite sheet without images (used in turn with others)"; sheets.push_back(m); }
+		if (c.seed == 1) std::reverse(sheets.begin(), sheets.end());
+		for (int round = 0; round < 2; ++round) for (auto& m : sheets) { runMutant(ctx, 2, m, false, dir); ctx.count("followup/objects-used-in-turn"); }
+		for (int round = 0; round < 2; ++round) for (std::size_t sidx : { std::size_t(2), std::size_t(0), std::size_t(3), std::size_t(1) }) { mc::Mutant m; m.bytes = gSeeds[sidx].fs.bytes; m.desc = gSeeds[sidx].name + " (used in turn with others)"; runMutant(ctx, gSeeds[sidx].loader, m, false, dir); }
+	}
 	else {
 		for (std::size_t k = c.from; k < c.to; ++k) { runMutant(ctx, int(c.seed), gConstructed[c.seed][k], false, dir); ctx.count("constructed/wrap-consistent-headers"); }
 	}
@@ -324,7 +341,7 @@ int main(int argc, char** argv)
 	def.init = build;
 	def.ncases = [](Ctx&) { return gCases.size(); };
 	def.run = runCase;
-	def.describe = [](std::size_t i) { const auto& c = gCases[i]; return (c.kind == 0 ? gSeeds[c.seed].name : "constructed loader " + std::to_string(c.seed)) + " " + std::to_string(c.from) + ".." + std::to_string(c.to); };
+	def.describe = [](std::size_t i) { const auto& c = gCases[i]; return (c.kind == 0 ? gSeeds[c.seed].name : c.kind == 2 ? std::string("objects used in turn, order ") + std::to_string(c.seed) : "constructed loader " + std::to_string(c.seed)) + " " + std::to_string(c.from) + ".." + std::to_string(c.to); };
 	def.caseTimeoutS = 120;
 	return mc::Main(argc, argv, def);
 }
